@@ -34,6 +34,13 @@ PROBES: dict = {
     "pow-operator-verbatim": ("C01", "pow", _two(lambda x, y: BIN("**", x, y), [(2, 3)], "probe-pow")),
     "boolop-yields-bool": ("C01", "boolop-yields-operand",
                            _two(lambda x, y: BOOLOP("and", x, y), [(7, 2)], "probe-and") + _two(lambda x, y: BOOLOP("or", x, y), [(7, 2)], "probe-or")),
+    # (name-free `and` / `or` of numbers in the numeric argument positions that are folded at transpile time - delays, range counts -
+    #  yield the deciding OPERAND, as Python does: these conform on the pinned tree and are recorded as conforming; any other outcome
+    #  is a violation.  In assignments, prints and pin writes the expression is emitted as C++ `&&` / `||`: the known finding.)
+    "boolop-yields-bool#folded": ("C03", "boolop-yields-operand", [
+        PROG([SLEEP(BOOLOP("or", I(0), I(250))), WRITE(S("a"))], pid="probe-boolop-folded-sleep"),
+        PROG([FOR("i", BOOLOP("and", I(1), I(3)), [WRITE(V("i"))])], pid="probe-boolop-folded-range"),
+        PROG([SLEEP(BIN("*", BOOLOP("or", I(0), I(5)), I(100))), WRITE(S("a"))], pid="probe-boolop-folded-sleep-arith")]),
     "continue-dropped": ("C01", "continue", [
         PROG([ASSIGN("t", I(0)), FOR("i", I(5), [IF([(CMP(V("i"), ("==", I(2))), [CONTINUE])]), AUG("t", "+", V("i"))]), WRITE(V("t"))], pid="probe-continue-for"),
         PROG([ASSIGN("t", I(0)), ASSIGN("i", I(0)), WHILE(CMP(V("i"), ("<", I(4))), [AUG("i", "+", I(1)), IF([(CMP(V("i"), ("==", I(2))), [CONTINUE])]), AUG("t", "+", V("i"))]), WRITE(V("t"))], pid="probe-continue-while")]),
